@@ -251,6 +251,8 @@ func ruleEStructRecursion(p *Program, r *Reporter) {
 							r.Trivial(c.Pos(), key, "the node the helper received from the dispatcher (a child of the dispatcher's node)")
 						} else if partOfParam(arg, 0) {
 							r.Trivial(c.Pos(), key, "a part (field, element, member) of something the helper received: still descending")
+						} else if prm, _ := capturedParam(fn, arg); prm != nil && isNode(prm.Type()) {
+							r.Trivial(c.Pos(), key, "the node the enclosing helper received, captured by a closure and never reassigned")
 						} else if fn.Name() == "Evaluate" {
 							r.Trivial(c.Pos(), key, "entry point")
 						} else {
@@ -554,6 +556,10 @@ func rulePErrCheck(p *Program, r *Reporter) {
 					errv = extractOf(c, res.Len()-1)
 				}
 				if errv == nil {
+					if n, ok := neverFailsHere(p, c); ok {
+						r.OK(c.Pos(), key, fmt.Sprintf("the error result is dropped, and by interpretation of %s with the arguments of this call it is nil on each of its %d paths", full, n))
+						continue
+					}
 					r.Bad(instrPos(c), key, "the error returned by "+full+" is discarded")
 				} else {
 					r.Trivial(c.Pos(), key, "error result is used")
@@ -563,6 +569,60 @@ func rulePErrCheck(p *Program, r *Reporter) {
 	}
 }
 
+// plainDom: no domain knowledge: repository functions are interpreted, everything else is opaque.
+type plainDom struct{}
+
+func (plainDom) Call(e *Engine, st *State, site ssa.CallInstruction, callee *ssa.Function, args []AV, depth int) ([]CallOut, bool) {
+	return nil, false
+}
+func (plainDom) Load(e *Engine, st *State, p avPtr, t types.Type) AV {
+	v := avSym{id: e.fresh(), tag: "mem"}
+	st.store(p, v)
+	return v
+}
+
+// neverFailsHere: the callee of c is a function of the repository whose error result is nil on every path when it is
+// given the arguments of this call (function literals as they are written, everything else unknown).
+func neverFailsHere(p *Program, c *ssa.Call) (int, bool) {
+	callee := c.Call.StaticCallee()
+	if callee == nil || !p.IsRepo(callee) || len(callee.Blocks) == 0 || c.Call.IsInvoke() {
+		return 0, false
+	}
+	e := newEngine(p, plainDom{})
+	e.MaxVisits = 2
+	e.SymSlices = true
+	st := newState()
+	var args []AV
+	for _, a := range c.Call.Args {
+		switch x := a.(type) {
+		case *ssa.MakeClosure:
+			fv := avFunc{fn: x.Fn.(*ssa.Function)}
+			for range x.Bindings {
+				fv.free = append(fv.free, avPtr{e.NewObj("captured", nil), ""})
+			}
+			args = append(args, fv)
+		case *ssa.Function:
+			args = append(args, avFunc{fn: x})
+		default:
+			args = append(args, avSym{id: e.fresh(), tag: "arg"})
+		}
+	}
+	outs := e.Run(callee, args, st)
+	if e.Aborted != "" {
+		return 0, false
+	}
+	n := 0
+	for _, o := range outs {
+		if o.Cut || o.Panic {
+			continue
+		}
+		if len(o.Res) == 0 || !isDefNil(o.Res[len(o.Res)-1]) {
+			return 0, false
+		}
+		n++
+	}
+	return n, n > 0
+}
 
 // partOfParam: v is obtained from a parameter or captured variable of the function only by taking fields, elements,
 // map members, range values or type assertions (a part of the structure the function was given).
